@@ -1017,6 +1017,7 @@ fn main() {
     let batch = run_batch(runs, workers, (runs / 4).max(1), |i, s| run_one(&world, seed, i, max_len, s));
 
     let mut failures_json = Vec::new();
+    let mut unstable = 0u64;
     let mut reps: Vec<(&String, &(u64, Failure))> = batch.failures.iter().collect();
     reps.sort_by_key(|(_, (i, _))| *i);
     for (class, (index, fail)) in reps.into_iter().take(12) {
@@ -1024,8 +1025,11 @@ fn main() {
         let (def, rf) = world.defs.iter().find(|(d, _)| d.name == sc.def).map(|(d, r)| (*d, r)).unwrap();
         let first = exec(def, rf, &sc);
         let Some(v) = first.violation else {
-            eprintln!("stream-sim: run {index} failed ({class}) but its recorded events do not reproduce it: harness defect");
-            std::process::exit(2);
+            // not replayable (e.g. it depended on memory read through corrupted lexer state): not reported; the runner
+            // treats a batch whose only failures are unstable as a harness error
+            eprintln!("stream-sim: run {index} failed ({class}) but its recorded events do not reproduce it: dropped");
+            unstable += 1;
+            continue;
         };
         let (msc, mv, committed) = minimise(&world, &sc, &v);
         let rj = replay_json(&msc, &mv, &committed, seed, *index, true);
@@ -1045,6 +1049,7 @@ fn main() {
     result["definitions"] = json!(world.defs.iter().map(|(d, r)| json!({"name": d.name, "utf8": d.utf8, "patterns": d.pats.len(), "lookaround": r.has_look, "reference_dfa_states": r.states})).collect::<Vec<_>>());
     result["failures"] = json!(failures_json);
     result["failure_classes"] = json!(batch.failures.len());
+    result["unstable_failure_classes"] = json!(unstable);
     match out_path {
         Some(p) => write_json(&p, &result),
         None => println!("{:#}", result),
